@@ -49,7 +49,13 @@ def send_step_case():
             ctx.assume((lift(sp) < rp) & (lift(sb) < rb) if not already else True)      # not yet crossed, or flag already up
             p._Packetizer__sent_packets, p._Packetizer__sent_bytes = sp, sb
             p._Packetizer__need_rekey = already
+            vp, vb = ctx.int("overflow_packets", 0, BIG), ctx.int("overflow_bytes", 0, BIG)
+            p._Packetizer__received_packets_overflow, p._Packetizer__received_bytes_overflow = vp, vb
             p.send_message(_Msg(bytes([94]) + b"x" * (n - 1)))
+        if already:
+            # what the peer has sent since the re-key was requested keeps counting against its allowance
+            ctx.prove((lift(p._Packetizer__received_packets_overflow) == vp) & (lift(p._Packetizer__received_bytes_overflow) == vb),
+                      "send:a-pending-rekey's-overflow-count-is-not-restarted-by-sending")
         plen = len(wire.buf)
         crossed = (lift(sp) + 1 >= rp) | (lift(sb) + plen >= rb)
         ctx.prove(z3.Implies(term_of(crossed), z3.BoolVal(True) if p.need_rekey() is True else term_of(p.need_rekey())),
@@ -60,7 +66,7 @@ def send_step_case():
         ctx.prove(lift(p._Packetizer__sent_packets) == lift(sp) + 1, "send:packets-counted")
         ctx.prove(lift(p._Packetizer__sent_bytes) >= lift(sb) + plen, "send:bytes-counted")
     return Case("send-step", fn, ["send:threshold-reached=>rekey-requested", "send:rekey-requested-only-at-a-threshold",
-                                  "send:packets-counted"],
+                                  "send:packets-counted", "send:a-pending-rekey's-overflow-count-is-not-restarted-by-sending"],
                 {"thresholds": "1..2^40", "counters": "0..2^40", "payload": [1, 7, 40]}, fresh_first=True)
 
 
